@@ -395,6 +395,57 @@ fn case_in(ctx: &Ctx, p: &GenProject, t: &mut Tape, rec: &Rec, dir: &Path) -> Ve
             }
         }
     }
+    // A second definition of a name of one named file in another named file: an error, whatever the order.
+    if p.named.len() >= 2 {
+        let a = p.named[0];
+        let b = p.named[1];
+        if !p.files[a].ast.defs.is_empty() {
+            let d = &p.files[a].ast.defs[t.below(p.files[a].ast.defs.len())];
+            let params = d.params.join(", ");
+            let text = if matches!(d.kind, crate::gen::ast::DefKind::Function) {
+                format!("\nfunction {}({params}) {{\n    return 1;\n}}\n", d.name)
+            } else {
+                format!("\ntemplate {}({params}) {{\n    signal input zdi;\n    signal output zdo;\n    zdo <== zdi;\n}}\n", d.name)
+            };
+            let fdir = dir.join("faulted");
+            let _ = std::fs::remove_dir_all(&fdir);
+            let _ = std::fs::create_dir_all(&fdir);
+            for (k, f) in p.files.iter().enumerate() {
+                let mut src = f.r.src.clone();
+                if k == b {
+                    let at = f.ast.main.as_ref().and_then(|m| f.r.span(m.id)).map(|s| s.0).unwrap_or(src.len());
+                    src.insert_str(at, &text);
+                }
+                std::fs::write(fdir.join(&f.rel), src).map_err(|e| Bad::new(format!("INFRA write: {e}")))?;
+            }
+            for order in [false, true] {
+                let mut named2: Vec<PathBuf> = p.named.iter().map(|i| fdir.join(&p.files[*i].rel)).collect();
+                if order {
+                    named2.reverse();
+                }
+                let o = RunOpts::files(&named2).verbose().level("error");
+                let bres = run_bin(ctx, &o)?;
+                rec.class("fault:duplicate_definition_in_second_named_file");
+                rec.nontrivial(fnv(format!("{}/dup2/{}/{order}", p.hash(), d.name).as_bytes()));
+                if crashed(&bres.out) {
+                    rec.class("faulted_run_crashed_skipped");
+                    continue;
+                }
+                if bres.out.status == Some(0) || !bres.parsed.diags.iter().any(|x| x.severity == "error") {
+                    return Err(Bad::new(format!(
+                        "`{}` is defined in the two named files {} and {}: no error is displayed (exit {:?}, `{}`)",
+                        d.name,
+                        p.files[a].rel,
+                        p.files[b].rel,
+                        bres.out.status,
+                        bres.parsed.summary.clone().unwrap_or_default()
+                    ))
+                    .sig("C02:silent:duplicate_definition_in_second_named_file")
+                    .rendered(format!("{}\n--- added to {}\n{text}\n--- stdout\n{}", p.describe(), p.files[b].rel, bres.out.stdout)));
+                }
+            }
+        }
+    }
     // A second definition of a name of the named file, placed in a file that is only included: either
     // the duplicate is reported as an error, or every definition of the named files is still analysed.
     for (ni, &n) in p.named.iter().enumerate() {
